@@ -6,9 +6,17 @@ CONSTANTS
   SetNames = {0, 1}
   Classes = {"CHANNEL", "ZONE"}
   OriginRefs = {0, 5}
+  RefFrom = "NONE"
+  RefTo = "NONE"
+  HeaderShare = FALSE
+  OkSet = {TRUE, FALSE}
+  ForeignRefCheck = TRUE
+  HeaderSetCheck = TRUE
   ItemRefs = {0, 7}
 VIEW View
 INVARIANT IdentityUnique
+INVARIANT RefResolves
+INVARIANT HeaderOwn
 INVARIANT OriginResolves
 INVARIANT Isolation
 INVARIANT Completeness
